@@ -790,6 +790,18 @@ func (g *apuGenSt) nrx4FlipCase(ch, variant, pre int) {
 		g.w(nrx4, 0x80)
 		g.c(4096 + 77)
 		g.w(nrx4, 0x40)
+	case 4: // the channel is ON (triggered without length enable) with one clock left; then trigger + enable in one write
+		g.w(nrx1, full-1)
+		g.w(nrx4, 0x80)
+		g.c(pre)
+		g.w(nrx4, 0xc0)
+	case 5: // the same with the channel restarted by a second plain trigger first
+		g.w(nrx1, full-1)
+		g.w(nrx4, 0x80)
+		g.c(77)
+		g.w(nrx4, 0x80)
+		g.c(pre)
+		g.w(nrx4, 0xc0)
 	default: // enable 1 -> 0 with trigger after the counter expired; enabled again later
 		g.w(nrx1, full-1)
 		g.c(2148)
@@ -807,6 +819,24 @@ func (g *apuGenSt) nrx4FlipCase(ch, variant, pre int) {
 		trace += o[1:2]
 	}
 	g.p.c.class(fmt.Sprintf("nrx4flip/ch%d/%d/%d/%s", ch, variant, pre, trace))
+}
+
+// channel 1 triggered with NR10 = 00 (sweep unit not armed), NR10 rewritten later WITHOUT a new trigger: nothing may
+// ever be calculated, the channel stays on at its frequency
+func (g *apuGenSt) sweepArmLaterCase(nr10 int, f int) {
+	g.reset(3)
+	g.w(0xff10, 0x00)
+	g.w(0xff12, 0xf0)
+	g.w(0xff13, f&0xff)
+	g.w(0xff14, 0x80|f>>8)
+	g.c(5000 + g.p.c.rng.intn(20000))
+	g.w(0xff10, nr10)
+	for j := 0; j < 14; j++ {
+		g.c(32768)
+		g.r(0xff26)
+	}
+	g.p.do("st")
+	g.p.c.class(fmt.Sprintf("sweeplater/%02x/%03x", nr10, f))
 }
 
 // directed retrigger test (C19): let the length counter expire, then trigger again with length
@@ -1252,8 +1282,8 @@ func apuGen(c *ctx) {
 			for k := 0; k < nSeq; k++ {
 				g.nrx4SequenceCase(ch)
 			}
-			for variant := 0; variant < 4; variant++ {
-				if ch == 3 && !c.thorough() && variant%2 == 1 {
+			for variant := 0; variant < 6; variant++ {
+				if ch == 3 && !c.thorough() && variant%2 == 1 && variant < 4 {
 					continue
 				}
 				for _, pre := range []int{100, 2148} {
@@ -1267,6 +1297,9 @@ func apuGen(c *ctx) {
 					g.sweepBoundaryCase(f, sh)
 				}
 			}
+		}
+		for _, nr10 := range []int{0x11, 0x21, 0x71, 0x19} {
+			g.sweepArmLaterCase(nr10, 0x700)
 		}
 		for _, nr10 := range []int{0x01, 0x02, 0x09, 0x07} {
 			g.sweepZeroPeriodCase(nr10, 0x400, false)
